@@ -6,6 +6,8 @@ import (
 	"strconv"
 	"strings"
 
+	"github.com/weppos/publicsuffix-go/publicsuffix"
+
 	"golang.org/x/tools/go/ssa"
 )
 
@@ -46,7 +48,66 @@ func oidString(e *Exec, fn *ssa.Function, args []Value) Value {
 	return &StrV{T: r.T, OID: arcs}
 }
 
+// asn1Unmarshal: reflection-driven DER decoding is not executed.  The decoded
+// value, the rest and the error are uninterpreted functions of the input bytes
+// and the target type (so two lints decoding the same bytes see the same value).
+func asn1Unmarshal(e *Exec, fn *ssa.Function, args []Value) Value {
+	data := args[0].(*SliceV)
+	iv, ok := args[1].(*IfaceV)
+	if !ok || iv.T == nil {
+		return &TupleV{E: []Value{&SliceV{Len: cbv(0, 64)}, e.mkError("asn1: Unmarshal recipient value is nil")}}
+	}
+	pt, isPtr := iv.T.Underlying().(*types.Pointer)
+	target, _ := iv.V.(*PtrV)
+	if !isPtr || target == nil || target.O == nil {
+		return &TupleV{E: []Value{&SliceV{Len: cbv(0, 64)}, e.mkError("asn1: Unmarshal recipient value is non-pointer or nil")}}
+	}
+	e.stub("uf:asn1.Unmarshal")
+	key := []Value{data, cstr(pt.Elem().String())}
+	if len(args) > 2 {
+		key = append(key, args[2])
+	}
+	errv := e.ufCall("asn1.Unmarshal.err", key, types.Universe.Lookup("error").Type()).(*IfaceV)
+	if errv.T != nil {
+		return &TupleV{E: []Value{&SliceV{Len: cbv(0, 64)}, errv}}
+	}
+	val := e.ufCall("asn1.Unmarshal.val", key, pt.Elem())
+	e.store(target, val, e.curSite)
+	rest := e.ufCall("asn1.Unmarshal.rest", key, types.NewSlice(types.Typ[types.Uint8]))
+	return &TupleV{E: []Value{rest, &IfaceV{}}}
+}
+
+func asn1Marshal(e *Exec, fn *ssa.Function, args []Value) Value {
+	e.stub("uf:asn1.Marshal")
+	return e.ufCall("asn1.Marshal", args, fn.Signature.Results())
+}
+
 func addMoreIntrinsics(m map[string]intrinsic) {
+	m["github.com/weppos/publicsuffix-go/publicsuffix.ParseFromListWithOptions"] = func(e *Exec, fn *ssa.Function, args []Value) Value {
+		// the public suffix list is fixed: the parse is a function of the name alone
+		if name, ok := concStr(args[1]); ok {
+			// concrete name: the real library (same version as /repo/v3/go.mod) answers, with the options zcrypto passes
+			e.stub("native:publicsuffix.Parse")
+			dn, err := publicsuffix.ParseFromListWithOptions(publicsuffix.DefaultList, name, &publicsuffix.FindOptions{IgnorePrivate: true, DefaultRule: publicsuffix.DefaultRule})
+			if err != nil {
+				return &TupleV{E: []Value{&PtrV{}, e.mkError(err.Error())}}
+			}
+			rule := &PtrV{}
+			if dn.Rule != nil {
+				rule = &PtrV{O: e.newObj(&StructV{F: []Value{cbv(uint64(dn.Rule.Type), 64), cstr(dn.Rule.Value), cbv(uint64(dn.Rule.Length), 64), cbool(dn.Rule.Private)}}, "ps:rule")}
+			}
+			d := &StructV{F: []Value{cstr(dn.TLD), cstr(dn.SLD), cstr(dn.TRD), rule}}
+			return &TupleV{E: []Value{&PtrV{O: e.newObj(d, "ps:domain")}, &IfaceV{}}}
+		}
+		e.stub("uf:publicsuffix.Parse")
+		return e.ufCall("publicsuffix.Parse", []Value{args[1]}, fn.Signature.Results())
+	}
+	for _, p := range []string{"encoding/asn1", "github.com/zmap/zcrypto/encoding/asn1"} {
+		m[p+".Unmarshal"] = asn1Unmarshal
+		m[p+".UnmarshalWithParams"] = asn1Unmarshal
+		m[p+".Marshal"] = asn1Marshal
+		m[p+".MarshalWithParams"] = asn1Marshal
+	}
 	m["(github.com/zmap/zcrypto/encoding/asn1.ObjectIdentifier).String"] = oidString
 	m["(encoding/asn1.ObjectIdentifier).String"] = oidString
 	// --- encoding/json on strings (C13/C14); everything else about the codec is trusted, not executed ---
